@@ -14,12 +14,15 @@ Open Scope Z_scope.
      wf_start_kw: naive valid start (years 1..9999), freq / wkst / weekdays in RFC range, naive until
                   in whole seconds;
      wf_args:     no empty BY tuple, no 0 in BYMONTHDAY, weekday n <> 0;
-     e_fwd = 0:   calendar.firstweekday() unchanged (F-C13-c otherwise),
+     0 <= e_fwd <= 6 and (e_fwd = 0 \/ r_wkst r <> 0):  calendar.firstweekday() is unchanged, or the rule's
+                  week start is not MO -- exactly the complement of finding F-C13-c (__str__ omits WKST only
+                  when it is 0; the constructor's default is calendar.firstweekday()),
    rrulestr(str(rule)) (default options; cache passes through) is a rule with identical state: start,
    freq, interval, wkst, count, until, every derived BY-field and the recorded original arguments.
    Equal state => equal occurrences is C01's determinism (checked on the real library per case). *)
 Theorem C13_str_roundtrip : forall ev o st kw r,
-  ctor ev (Some st) kw = Ok r -> e_fwd ev = 0 -> wf_args kw = true -> wf_start_kw st kw = true ->
+  ctor ev (Some st) kw = Ok r -> 0 <= e_fwd ev <= 6 -> (e_fwd ev = 0 \/ r_wkst r <> 0) ->
+  wf_args kw = true -> wf_start_kw st kw = true ->
   o_forceset o = false -> o_compatible o = false -> o_ignoretz o = false -> o_unfold o = false ->
   parse_rfc ev o (to_str r) = RRule (o_cache o) r.
 Proof. exact str_roundtrip_args. Qed.
@@ -27,7 +30,7 @@ Print Assumptions C13_str_roundtrip.
 
 (* the same with the well-formedness stated on the rule *)
 Theorem C13_str_roundtrip_rule : forall ev o st kw r,
-  ctor ev (Some st) kw = Ok r -> e_fwd ev = 0 -> wf_args kw = true -> wf_rule r = true ->
+  ctor ev (Some st) kw = Ok r -> (e_fwd ev = 0 \/ r_wkst r <> 0) -> wf_args kw = true -> wf_rule r = true ->
   o_forceset o = false -> o_compatible o = false -> o_ignoretz o = false -> o_unfold o = false ->
   parse_rfc ev o (to_str r) = RRule (o_cache o) r.
 Proof. exact str_roundtrip. Qed.
@@ -35,22 +38,22 @@ Print Assumptions C13_str_roundtrip_rule.
 
 (* until with a fractional second: str() truncates it, everything else is identical *)
 Theorem C13_str_roundtrip_until_us : forall ev o st kw r,
-  ctor ev (Some st) kw = Ok r -> e_fwd ev = 0 -> wf_args kw = true -> wf_rule (trunc_until r) = true ->
+  ctor ev (Some st) kw = Ok r -> (e_fwd ev = 0 \/ r_wkst r <> 0) -> wf_args kw = true -> wf_rule (trunc_until r) = true ->
   o_forceset o = false -> o_compatible o = false -> o_ignoretz o = false -> o_unfold o = false ->
   parse_rfc ev o (to_str r) = RRule (o_cache o) (trunc_until r).
 Proof. exact str_roundtrip_until_us. Qed.
 Print Assumptions C13_str_roundtrip_until_us.
 
 (* the constructor is idempotent on the recorded arguments *)
-Theorem C13_ctor_idem : forall ev st kw r, ctor ev (Some st) kw = Ok r -> e_fwd ev = 0 -> wf_args kw = true ->
+Theorem C13_ctor_idem : forall ev st kw r, ctor ev (Some st) kw = Ok r -> (e_fwd ev = 0 \/ r_wkst r <> 0) -> wf_args kw = true ->
   ctor ev (Some (r_dtstart r)) (kw_of_rule r) = Ok r.
 Proof. exact ctor_idem. Qed.
 Print Assumptions C13_ctor_idem.
 
-(* the guards are needed: calendar.firstweekday() <> 0 (finding F-C13-c), an empty BY tuple,
-   an aware start *)
+(* the guards are needed: calendar.firstweekday() <> 0 together with wkst = MO (finding F-C13-c), an
+   empty BY tuple, an aware start *)
 Theorem C13_str_roundtrip_firstweekday_refuted : exists ev st kw r,
-  ctor ev (Some st) kw = Ok r /\ e_fwd ev <> 0 /\ wf_args kw = true /\ wf_rule r = true /\
+  ctor ev (Some st) kw = Ok r /\ e_fwd ev <> 0 /\ r_wkst r = 0 /\ wf_args kw = true /\ wf_rule r = true /\
   parse_rfc ev o_default (to_str r) <> RRule false r.
 Proof. exact str_roundtrip_firstweekday_refuted. Qed.
 Print Assumptions C13_str_roundtrip_firstweekday_refuted.
@@ -492,3 +495,43 @@ Theorem C13_gen_error_classes : forall ev o s e, forallb is_ascii s = true ->
   gen_parse_rfc ev o s = GExc e -> e = XValue \/ e = XUnm.
 Proof. exact gen_error_classes. Qed.
 Print Assumptions C13_gen_error_classes.
+
+(* ------------------------------------------------------------------------------------------------
+   "the same occurrences": bridge to C01's model (coq/rstr/RstrBridge.v; depends on the hand-written
+   coq/rr/RRBase.v, RRNorm.v only).  rstr's constructor model `ctor` and rr's `RRNorm.normalize` -- which
+   C01 proves equal to the code regenerated from rrule.__init__ (C01_gen_init_is_model) and about whose
+   result C01's iteration theorems speak -- agree on every start and keyword record the constructor
+   accepts (raw_of reads the keyword record as rr's argument record; it generalises
+   link/LinkChain.raw_of_kw to all rules, incl. UNTIL and the week start default).  Hence equal rstr
+   rule state => equal RRNorm rule => equal result of every function of it, in particular of
+   RRIter.iterate; and the round trip of C13_str_roundtrip is a statement about occurrences. *)
+From V Require rr.RRBase rr.RRNorm rstr.RstrBridge.
+
+Theorem C13_bridge_ctor_is_normalize : forall ev st kw r, ctor ev (Some st) kw = Ok r ->
+  exists raw, RstrBridge.raw_of ev st kw = Some raw /\ RRNorm.normalize raw = RRBase.Ok (RstrBridge.rule_of r).
+Proof. exact RstrBridge.ctor_is_normalize. Qed.
+Print Assumptions C13_bridge_ctor_is_normalize.
+
+Theorem C13_bridge_same_state_same_occurrences : forall ev st kw st' kw' r,
+  ctor ev (Some st) kw = Ok r -> ctor ev (Some st') kw' = Ok r ->
+  exists raw raw' rl rl',
+    RstrBridge.raw_of ev st kw = Some raw /\ RstrBridge.raw_of ev st' kw' = Some raw' /\
+    RRNorm.normalize raw = RRBase.Ok rl /\ RRNorm.normalize raw' = RRBase.Ok rl' /\ rl = rl' /\
+    forall (A : Type) (iterate : RRNorm.rule -> A), iterate rl = iterate rl'.
+Proof. exact RstrBridge.same_state_same_occurrences. Qed.
+Print Assumptions C13_bridge_same_state_same_occurrences.
+
+(* C13_str_roundtrip, as occurrences in C01's model *)
+Theorem C13_str_roundtrip_occurrences : forall ev o st kw r,
+  ctor ev (Some st) kw = Ok r -> 0 <= e_fwd ev <= 6 -> (e_fwd ev = 0 \/ r_wkst r <> 0) ->
+  wf_args kw = true -> wf_start_kw st kw = true ->
+  o_forceset o = false -> o_compatible o = false -> o_ignoretz o = false -> o_unfold o = false ->
+  exists r2 raw raw2 rl rl2,
+    parse_rfc ev o (to_str r) = RRule (o_cache o) r2 /\
+    RstrBridge.raw_of ev st kw = Some raw /\ RstrBridge.raw_of ev (r_dtstart r) (kw_of_rule r) = Some raw2 /\
+    ctor ev (Some (r_dtstart r)) (kw_of_rule r) = Ok r2 /\
+    RRNorm.normalize raw = RRBase.Ok rl /\ RRNorm.normalize raw2 = RRBase.Ok rl2 /\
+    rl = RstrBridge.rule_of r /\ rl2 = RstrBridge.rule_of r2 /\
+    forall (A : Type) (iterate : RRNorm.rule -> A), iterate rl = iterate rl2.
+Proof. exact RstrBridge.str_roundtrip_occurrences. Qed.
+Print Assumptions C13_str_roundtrip_occurrences.
